@@ -88,6 +88,11 @@ CLAIMED = {
             "TLC proves on the reference step machine that inference terminates (strictly decreasing length, eventual fixed point) and judges the real function's "
             "chains of non-recursive applications and its recursive result: each step must be the input or an embedded target, the recursive result the limit and a fixed point.",
             "Trusted: TLC; candidate set Embedded() in C15.tla; time is not modelled (RecursionError / 5 s timeout / step budget instead)."),
+    "C18": ("DESIGN.md section 4 / C18",
+            "Member(host, domains) and the path predicates defined in TLA+; TLC checks membership stability under leading labels / glued labels / foreign suffixes for every listed domain and derives the host universe; hosts x paths x decoy texts x 5 URL forms replayed into the 7 site predicates and 4 simple predicates; TLC trace validation (form-independent, true-iff-member, decoy-independent ...)",
+            "Every listed site domain (documented patterns, bundled YouTube and shortener lists) and its look-alikes are run through the predicates in five forms with decoy "
+            "texts in userinfo / path / query / fragment; the trace spec compares each answer with whole-label membership evaluated by TLC and with the decoy-free answer.",
+            "Trusted: TLC; the documented site patterns transcribed in harness/checks/c18.py; bundled lists are data."),
     "C20": ("DESIGN.md section 4 / C20",
             "ensure/force/strip as TLA+ operators with the five laws model checked by TLC over all short strings x protocols; TLC-enumerated strings and builder argument combinations replayed into the real helpers; TLA+ contracts (query decodes to retained arguments, single-slash join, fragment, read-back, pathsplit) judged by the trace spec; two recorded known findings",
             "TLC checks the protocol laws on the model (and that they can only fail on nested-protocol inputs), and judges every observed result of "
